@@ -10,11 +10,12 @@ def run(ctx):
     ctx.cov["rule"] = ("one case = a script of 1-2 statements over one generated dataset (2-3 identifiers so that non-grouped identifiers repeat, "
                        "0-3 measures of Integer/Number/String/Boolean where the operator admits them, 0-200 datapoints, nulls 0/25/60 %, all-null "
                        "groups) whose last statement is op(DS [group by|group except ids] [having c]) or DS[aggr n := op(comp)|count(), … "
-                       "[group by|except ids] [having c]] for the ten aggregate operators; having = comparisons of sum/avg/min/max/median/"
-                       "count(comp)/count() with literals, optionally combined by and/or, over one-measure operands and (half of them) over "
-                       "operands with several measures / other components than the aggregated ones / no identifier left; malformed grouping "
-                       "names (same semantic error code expected); a second small stream generates the shape the engine is known to fail on "
-                       "(min/max over an operand without measures and no identifier left); distinct = (statements, data)")
+                       "[group by|except ids] [having c]] for the ten aggregate operators (comp = measure, small exact expression or an "
+                       "identifier); having = comparisons of sum/avg/min/max/median/count(comp)/count() with literals, isnull(agg), not (…), "
+                       "redundant parentheses, and/or combinations, over one-measure operands and (half of them) operands with several "
+                       "measures / other components than the aggregated ones / no identifier left; malformed grouping names and min/max "
+                       "without measures and identifiers (expected-error stream): the same semantic error code is expected from both sides; "
+                       "distinct = (statements, data)")
     ctx.oblige("K: engine = run_ascript (Model/Aggr.v) on every generated case, or the disagreement is reported", True)
     ctx.trusted.append("DuckDB 1.5.5 executes the emitted SQL (observed only). Bounds of the correspondence: Numbers on a 1/4 grid in [-10,10], "
                        "Integers |x| <= 1000, <= 200 datapoints, ASCII strings; sum/min/max/count/median and avg are compared as exact rationals "
